@@ -131,7 +131,9 @@ func genCluster(g *gen) {
 			if g.chance(1, 3) {
 				tick = 1
 			}
-			g.emit("K cycle tick=%d meta=%s terr=%d perr=%s lq=%s bf=%s pe=%s off=%d", tick, meta, terr, perr, lq, bf, pe, 1+c)
+			// the Kafka error code partitions in `pe` are answered with (any non-zero code is an error)
+			pec := g.pick(6, 6, 3, 5, 9, 7, 1, 56, 78, 74, -1)
+			g.emit("K cycle tick=%d meta=%s terr=%d perr=%s lq=%s bf=%s pe=%s off=%d pec=%d", tick, meta, terr, perr, lq, bf, pe, 1+c, pec)
 		}
 	}
 }
@@ -141,6 +143,7 @@ type clEnv struct {
 	parts   map[string][]clPart
 	terr    bool
 	perr    string
+	pec     int16
 	lq      map[string]int // "t.p" -> leader or -1
 	bf      map[int]bool
 	pe      map[string]bool
@@ -204,6 +207,9 @@ func parseClEnv(kv map[string]string) *clEnv {
 		}
 	}
 	e.base, _ = strconv.ParseInt(kv["off"], 10, 64)
+	if c, err := strconv.Atoi(kv["pec"]); err == nil {
+		e.pec = int16(c)
+	}
 	return e
 }
 
@@ -214,6 +220,20 @@ func topicIndex(t string) int64 {
 		}
 	}
 	return 9
+}
+
+var partCache, partCacheWant = map[string][]int32{}, map[string][]int32{}
+
+func equalInt32(a, b []int32) bool {
+	if len(a) != len(b) {
+		return false
+	}
+	for i := range a {
+		if a[i] != b[i] {
+			return false
+		}
+	}
+	return true
 }
 
 func runCluster(r *runner) {
@@ -237,6 +257,13 @@ func runCluster(r *runner) {
 			out = append(out, int32(p.id))
 		}
 		env.pending = len(out)
+		// like sarama, hand out the SAME cached slice for as long as the topic's partition list is
+		// unchanged: a caller that writes into it corrupts what the next metadata read sees
+		if prev, ok := partCacheWant[t]; ok && equalInt32(prev, out) {
+			return partCache[t], true
+		}
+		partCacheWant[t] = append([]int32{}, out...)
+		partCache[t] = out
 		return out, true
 	}
 	fake.LeaderFn = func(t string, p int32) (int32, bool) {
@@ -269,6 +296,7 @@ func runCluster(r *runner) {
 			a := verifhook.BlockAnswer{Topic: tp.Topic, Partition: tp.Partition, Offset: env.base*1000 + 10*topicIndex(tp.Topic) + int64(tp.Partition)}
 			if env.pe[fmt.Sprintf("%s.%d", tp.Topic, tp.Partition)] {
 				a.Err = true
+				a.Code = env.pec
 			}
 			out = append(out, a)
 		}
@@ -290,6 +318,7 @@ func runCluster(r *runner) {
 		case "init":
 			app = &protocol.ApplicationContext{StorageChannel: make(chan *protocol.StorageRequest, 4096)}
 			cl = verifhook.NewKafkaCluster(app, "c0")
+			partCache, partCacheWant = map[string][]int32{}, map[string][]int32{}
 			r.reply("ok")
 		case "cycle":
 			kv := parseKV(f[2:])
